@@ -118,13 +118,23 @@ class FakeConn:
             self.log.append(('s-close', b''))
             self._feed_eof_once()
 
+    def reset(self):
+        """The peer's RST: the pending / next read fails with ECONNRESET (no orderly close)."""
+        if not self.server_closed:
+            self.server_closed = True
+            self.was_reset = True
+            self.log.append(('s-reset', b''))
+            self.reader.set_exception(ConnectionResetError(104, 'Connection reset by peer'))
+
     async def send_segments(self, segments, eof=False, yields=1):
-        """Deliver segments one by one, letting the client run in between."""
+        """Deliver segments one by one, letting the client run in between.  eof: True = close, 'reset' = RST."""
         for seg in segments:
             self.send(seg)
             for _ in range(yields):
                 await asyncio.sleep(0)
-        if eof:
+        if eof == 'reset':
+            self.reset()
+        elif eof:
             self.close()
 
     async def wait_for_write(self):
